@@ -156,6 +156,31 @@ def constant_cases(rng, tier, op='encode'):
     return cs
 
 
+def prefix_cases(rng, tier, op='encode'):
+    """every non-empty mode subset combined with each way of writing a codeword before the data (FNC1 start, ECI, Macro
+    05/06 header) and with none, on a few short inputs of each alphabet: the configurations in which the planner starts
+    with written > 0 and possibly a disabled start mode"""
+    cs = []
+    inputs = [[65], [48, 49, 48, 52, 48, 49, 50, 51, 52, 53, 54, 55, 56, 57, 48, 49], [104, 101, 108, 108, 111, 32, 119], [200, 201, 202],
+              [65, 66, 67, 68, 69, 70, 71, 72, 73], [42, 49, 50, 13, 65]]
+    subsets = list(range(1, 64))
+    for m in subsets:
+        for kind in ('fnc1', 'eci', 'macro', 'none'):
+            ins = inputs if tier != 'quick' else [inputs[rng.below(len(inputs))], inputs[rng.below(len(inputs))]]
+            for d in ins:
+                if kind == 'macro':
+                    dd, mac, f, e = H05 + d + TRAIL, True, False, None
+                elif kind == 'fnc1':
+                    dd, mac, f, e = d, False, True, None
+                elif kind == 'eci':
+                    dd, mac, f, e = d, False, False, rng.choice([3, 26, 127, 16383])
+                else:
+                    dd, mac, f, e = d, False, False, None
+                line = encode_line(dd, ALL48, m, mac, f, e).replace('encode', op, 1)
+                cs.append({'line': line, 'cat': 'prefix-' + kind, 'cfg': dict(data=dd, wl=ALL48, modes=m, macros=mac, fnc1=f, eci=e)})
+    return cs
+
+
 def boundary_cases(rng, tier, per_cap=2, op='encode'):
     """inputs whose encoded length lands around a symbol capacity: digit / letter / byte runs of the
     lengths that fill a symbol exactly, one less, one more (where the end-of-data rules fire)"""
@@ -179,6 +204,9 @@ def boundary_cases(rng, tier, per_cap=2, op='encode'):
                     t = rng.range(1, 4)
                     d[-t:] = [rng.choice(ALPH[rng.choice(['digits', 'c40', 'high', 'shift2'])]) for _ in range(t)]
                 wl = rng.choice([DEFAULT, ALL48, ALL48])
+                if rng.chance(1, 3):
+                    # the symbol(s) of exactly this capacity alone: the early max_capacity / upper_limit gates see the boundary
+                    wl = [i for i, x in enumerate(caps()) if x == c][:1]
                 modes = 63 if rng.chance(2, 3) else rand_modes(rng)
                 line = encode_line(d, wl, modes, False, False, None).replace('encode', op, 1)
                 cs.append({'line': line, 'cat': 'boundary-' + kind,
